@@ -1,19 +1,20 @@
 #!/usr/bin/env bash
 # seedtest.sh <ID> <patch.diff> [check ids...]
-# Applies a seeded change to /repo, runs the given checks' quick tier (default:
-# the property's own check), records the verdicts, and ALWAYS reverts /repo.
+# Runs the given checks' quick tier (default: the property's own check) against
+# a scratch worktree of /repo's HEAD with the seeded change applied
+# (VERIF_REPO, see ./check), so /repo itself is never touched and other runs
+# are not disturbed. Equivalent to `git -C /repo apply <patch>; ./check ...;
+# git -C /repo checkout -- .`. Evidence written meanwhile is restored.
 set -u
-ID="$1"; PATCH="$2"; shift 2
+ID="$1"; PATCH="$(readlink -f "$2")"; shift 2
 CHECKS=("$@"); [ ${#CHECKS[@]} -eq 0 ] && CHECKS=("$ID")
-cd /repo || exit 2
-if [ -n "$(git status --porcelain)" ]; then echo "/repo not clean"; exit 2; fi
-if ! git apply --check "$PATCH" 2>/dev/null; then echo "patch does not apply to /repo HEAD"; exit 2; fi
-git apply "$PATCH"
-# evidence written while a seeded change is applied is not evidence about /repo
+W=$(mktemp -d /tmp/seedtest-wt.XXXXXX); rmdir "$W"
+git -C /repo worktree add -q --detach "$W" HEAD || exit 2
 EVBAK=$(mktemp -d /tmp/seedtest-ev.XXXXXX); cp -a /verif/evidence/. "$EVBAK"/
-trap 'cd /repo && git checkout -- . && git clean -fdq -- . >/dev/null 2>&1; cp -a "$EVBAK"/. /verif/evidence/; rm -rf "$EVBAK"' EXIT
+trap 'git -C /repo worktree remove --force "$W" >/dev/null 2>&1; cp -a "$EVBAK"/. /verif/evidence/; rm -rf "$EVBAK" /verif/.bin-alt-$(echo "$W" | md5sum | cut -c1-8)' EXIT
+if ! git -C "$W" apply "$PATCH"; then echo "patch does not apply to /repo HEAD"; exit 2; fi
 for c in "${CHECKS[@]}"; do
-  out=$(cd /verif && VERIF_SEED=${VERIF_SEED:-1} timeout 1500 ./check "$c" quick 2>&1); rc=$?
+  out=$(cd /verif && VERIF_REPO="$W" VERIF_SEED=${VERIF_SEED:-1} timeout 1800 ./check "$c" quick 2>&1); rc=$?
   nv=$(echo "$out" | grep -c '^VIOLATION')
   sigs=$(echo "$out" | grep 'signature=' | sed 's/.*signature=//' | sort | uniq -c | sort -rn | head -5 | tr '\n' ';')
   echo "seed=$ID check=$c exit=$rc violations=$nv sigs: $sigs"
